@@ -69,6 +69,18 @@ def graph_case(lib, page, bound=BOUND_S, step_limit=STEP_LIMIT):
         want, ref = None, "diverges:" + str(e)
     except RecursionError:
         want, ref = None, "diverges:depth"
+    if want is None and ref in ("diverges:loop", "diverges:depth"):
+        # Is the divergent call's value ever used?  A cycle that sits only in
+        # an argument the callee never looks at produces an error element
+        # that nobody sees; then the output is simply the value.
+        try:
+            it2 = rt.Interp(lib, max_depth=100, fuel=200000)
+            it2.bottom_args = True
+            out2 = it2.finish(it2.eval_seq(page, None, False))
+            if rt.BOTTOM not in out2 and it2.stats.get("bottom_args"):
+                want, ref, it = out2, "value-cycle-in-unused-argument", it2
+        except (rt.OutOfDomain, rt.Budget, RecursionError):
+            pass
     ctx = env.new_ctx()
     try:
         exp.install(ctx, lib)
